@@ -590,6 +590,15 @@ class TransferManager(BaseManager):
             upload._transfer_task.add_done_callback(
                 upload._transfer_task_complete
             )
+            upload._transfer_task.add_done_callback(
+                self._on_upload_task_complete
+            )
+
+    def _on_upload_task_complete(self, task: asyncio.Task):
+        # An upload that got (re-)queued while its previous attempt was still
+        # finishing (sending the PeerUploadFailed message) is skipped by
+        # `manage_transfers`: look at it again now that the attempt has ended
+        self.request_management_cycle(_RequestFlag.TRANSFER_CHANGE)
 
     async def manage_shares_changed(self):
         logger.debug("processing shares or block list changes")
